@@ -639,3 +639,16 @@ package gorm
 //@   entry limitedTo1 == 0 && orderedByPK == 0 && orderedByPKDesc == 0
 //@   assert one-row: limitedTo1 != 0 && ref(arg1) == limitedTo1 [C15]
 //@   assert not-found-is-an-error: arg1.Statement.RaiseErrorOnNotFound [C15]
+
+//@ # ---------- C06/C19: what running a pipeline leaves behind on the statement ----------
+//@ # After a real run the built text and bound values are cleared (the same chain can be executed again and
+//@ # builds afresh); a dry run keeps them for the caller to read. Clause order borrowed from the processor is
+//@ # returned.
+//@ func (*processor).Execute
+//@   tags C06 C19
+//@   assumes handle-well-formed: db.Statement != nil && db.Statement.DB == db && len(db.Statement.scopes) == 0
+//@   let stmt0 = db.Statement
+//@   let borrowed = len(db.Statement.BuildClauses) == 0
+//@   ensures same-handle: result == db
+//@   ensures real-run-clears-the-built-statement: !stmt0.DB.Config.DryRun ==> stmt0.Vars == nil [C06]
+//@   ensures borrowed-clause-order-returned: borrowed ==> stmt0.BuildClauses == nil [C06]
